@@ -3189,7 +3189,7 @@ func (s *Server) closeIdleConns() {
 		// turns active at this very moment is either left alone or never
 		// starts handling the request it just received.
 		if t != 0 && now-t >= 0 && ict.CompareAndSwap(t, idleConnClosing) {
-			_ = c.Close()
+			closeIdleConn(c)
 			// Don't recycle ict: the connection's own goroutine still holds it
 			// and stores into it, so only that goroutine may return it.
 			delete(s.idleConns, c)
@@ -3259,4 +3259,15 @@ var stateName = []string{
 
 func (c ConnState) String() string {
 	return stateName[c]
+}
+
+// closeIdleConn closes c on behalf of Shutdown. The goroutine serving c still
+// owns it: per-IP wrappers must stay usable (and out of their pool) until that
+// goroutine closes them itself, so only the wrapped connection is closed.
+func closeIdleConn(c net.Conn) {
+	if uc, ok := c.(interface{ closeUnderlying() error }); ok {
+		_ = uc.closeUnderlying()
+		return
+	}
+	_ = c.Close()
 }
